@@ -1018,6 +1018,41 @@ fn grid() {
         }
         println!("R vec_reserved_no_move_every_entry es=4 cases={} moved={} bound=0", cases, moved);
     }
+    // emptying or shortening a vector (clear, truncate, drain, split_off at 0 / in the middle / at the end,
+    // retain nothing, pop all) keeps its reservation: it is refilled to the old capacity without moving
+    {
+        let bump = Bump::new();
+        let mut moved = 0usize;
+        let mut cases = 0usize;
+        for cap in [4usize, 9, 64] {
+            for fill in [0usize, 1, cap / 2, cap] {
+                for how in 0..9usize {
+                    let mut v: BVec<u32> = BVec::with_capacity_in(cap, &bump);
+                    for i in 0..fill { v.push(i as u32); }
+                    let mut st = bumpalo::collections::String::with_capacity_in(cap, &bump);
+                    for _ in 0..fill { st.push('s'); }
+                    let _neighbour = bump.alloc(0u8);
+                    let (p0, c0, sp0, sc0) = (v.as_ptr() as usize, v.capacity(), st.as_ptr() as usize, st.capacity());
+                    match how {
+                        0 => { v.clear(); st.clear(); }
+                        1 => { v.truncate(0); st.truncate(0); }
+                        2 => { v.drain(..); st.drain(..); }
+                        3 => { let _t = v.split_off(0); let _u = st.split_off(0); }
+                        4 => { let m = v.len() / 2; let _t = v.split_off(m); let _u = st.split_off(m); }
+                        5 => { let m = v.len(); let _t = v.split_off(m); let _u = st.split_off(m); }
+                        6 => { v.retain(|_| false); st.retain(|_| false); }
+                        7 => { while v.pop().is_some() {} while st.pop().is_some() {} }
+                        _ => { let mut o = BVec::new_in(&bump); o.append(&mut v); }
+                    }
+                    if v.capacity() != c0 || st.capacity() != sc0 { moved += 1; }
+                    while v.len() < c0 { v.push(7); if v.as_ptr() as usize != p0 || v.capacity() != c0 { moved += 1; break; } }
+                    while st.len() < sc0 { st.push('t'); if st.as_ptr() as usize != sp0 || st.capacity() != sc0 { moved += 1; break; } }
+                    cases += 1;
+                }
+            }
+        }
+        println!("R vec_reservation_kept_by_shortening es=4 cases={} moved={} bound=0", cases, moved);
+    }
     // a String with reserved capacity takes characters of every width up to that capacity without moving
     {
         use std::fmt::Write as _;
